@@ -693,4 +693,152 @@ theorem batch_release_at_end (cl : Cluster) (plan : Plan) (view : Tid → TaskVi
     subst h
     exact ⟨cl1, b, heq, by simp [hempty], by simp [Alg.finishStatus, hempty]⟩
 
+/-! ### order independence (C10) -/
+
+/-- two results agree on everything observable (the pool only as a set) -/
+def AlgEquiv (a b : Except Err AlgOut) : Prop :=
+  match a, b with
+  | .ok x, .ok y => x.schedule = y.schedule ∧ x.status = y.status ∧ x.cl = y.cl ∧
+                    (∀ t, t ∈ x.pool ↔ t ∈ y.pool)
+  | .error e, .error e' => e = e'
+  | _, _ => False
+
+namespace Alg
+
+theorem seedPool_mem (plan : Plan) (p1 p2 : List Tid) (h : ∀ t, t ∈ p1 ↔ t ∈ p2) :
+    ∀ t, t ∈ seedPool plan p1 ↔ t ∈ seedPool plan p2 := by
+  intro t
+  unfold seedPool
+  cases p1 with
+  | nil =>
+    cases p2 with
+    | nil => simp
+    | cons b r => exact absurd ((h b).mpr (by simp)) (by simp)
+  | cons a r =>
+    cases p2 with
+    | nil => exact absurd ((h a).mp (by simp)) (by simp)
+    | cons b r' => simpa using h t
+
+theorem filter_contains_congr (l p1 p2 : List Tid) (h : ∀ t, t ∈ p1 ↔ t ∈ p2) :
+    l.filter (fun t => p1.contains t) = l.filter (fun t => p2.contains t) := by
+  apply List.filter_congr
+  intro t _
+  by_cases ht : t ∈ p1
+  · have ht2 := (h t).mp ht
+    simp [ht, ht2]
+  · have ht2 : t ∉ p2 := fun h' => ht ((h t).mpr h')
+    simp [ht, ht2]
+
+theorem mem_updatePool (pool removed added : List Tid) (t : Tid) :
+    t ∈ updatePool pool removed added ↔ (t ∈ pool ∧ t ∉ removed) ∨ t ∈ added := by
+  unfold updatePool
+  simp only [List.mem_append, List.mem_eraseDups, List.mem_filter, List.contains_eq_mem,
+    Bool.not_eq_eq_eq_not, Bool.not_true, decide_eq_false_iff_not]
+  by_cases h1 : t ∈ pool <;> by_cases h2 : t ∈ removed <;> by_cases h3 : t ∈ added <;> simp [h1, h2, h3]
+
+theorem updatePool_congr (p1 p2 removed added : List Tid) (h : ∀ t, t ∈ p1 ↔ t ∈ p2) :
+    ∀ t, t ∈ updatePool p1 removed added ↔ t ∈ updatePool p2 removed added := by
+  intro t
+  rw [mem_updatePool, mem_updatePool, h t]
+
+end Alg
+
+theorem queue_order_independent (cl : Cluster) (plan : Plan) (view : Tid → TaskView)
+    (sched : List (Tid × Mid)) (pool₁ pool₂ : List Tid) (h : ∀ t, t ∈ pool₁ ↔ t ∈ pool₂) :
+    AlgEquiv (Alg.queueRun cl plan view sched pool₁) (Alg.queueRun cl plan view sched pool₂) := by
+  have hs := Alg.seedPool_mem plan pool₁ pool₂ h
+  have hf := Alg.filter_contains_congr plan.tasks _ _ hs
+  unfold Alg.queueRun
+  simp only [AlgEquiv]
+  rw [hf]
+  refine ⟨?_, ?_, ?_, ?_⟩ <;> first | trivial | rfl | exact Alg.updatePool_congr _ _ _ _ hs
+
+theorem batch_order_independent (cl : Cluster) (plan : Plan) (view : Tid → TaskView)
+    (parts minPer : Nat) (split : Option (List (Oid × Nat × Nat)))
+    (sched : List (Tid × Mid)) (pool₁ pool₂ : List Tid) (h : ∀ t, t ∈ pool₁ ↔ t ∈ pool₂) :
+    AlgEquiv (Alg.batchRun cl plan view parts minPer split sched pool₁)
+             (Alg.batchRun cl plan view parts minPer split sched pool₂) := by
+  have hs := Alg.seedPool_mem plan pool₁ pool₂ h
+  have hf := Alg.filter_contains_congr plan.tasks _ _ hs
+  unfold Alg.batchRun
+  cases hp : Alg.provisionResources cl parts minPer split plan.obs with
+  | error e => simp only [AlgEquiv]
+  | ok r =>
+    obtain ⟨cl1, b⟩ := r
+    simp only [AlgEquiv]
+    rw [hf]
+    refine ⟨?_, ?_, ?_, ?_⟩ <;> first | trivial | rfl | exact Alg.updatePool_congr _ _ _ _ hs
+
+theorem dynamic_order_independent (cl : Cluster) (plan : Plan) (view : Tid → TaskView)
+    (sched : List (Tid × Mid)) (pool₁ pool₂ : List Tid) (h : ∀ t, t ∈ pool₁ ↔ t ∈ pool₂) :
+    AlgEquiv (Alg.dynamicRun cl plan view sched pool₁) (Alg.dynamicRun cl plan view sched pool₂) := by
+  have hs := Alg.seedPool_mem plan pool₁ pool₂ h
+  have hf := Alg.filter_contains_congr plan.tasks _ _ hs
+  unfold Alg.dynamicRun
+  simp only
+  rw [hf]
+  generalize List.foldl (Alg.dynamicStep cl plan view cl.available.length) _ _ = r
+  cases r with
+  | error e => simp only [AlgEquiv]
+  | ok st =>
+    simp only [AlgEquiv]
+    refine ⟨?_, ?_, ?_, ?_⟩ <;> first | trivial | rfl | exact Alg.updatePool_congr _ _ _ _ hs
+
+theorem greedy_ignores_pool (cl : Cluster) (plan : Plan) (view : Tid → TaskView)
+    (sched : List (Tid × Mid)) (pool₁ pool₂ : List Tid) :
+    (Alg.greedyRun cl plan view sched pool₁).map (fun o => (o.schedule, o.status)) =
+    (Alg.greedyRun cl plan view sched pool₂).map (fun o => (o.schedule, o.status)) := by
+  unfold Alg.greedyRun
+  generalize List.foldl (Alg.greedyStep cl plan view) _ _ = r
+  cases r <;> rfl
+
+/-! ### `_process_current_schedule` (C17) -/
+
+theorem find_map_upd (tasks : List TaskRec) (t : Tid) (f : TaskRec → TaskRec)
+    (hf : ∀ r, (f r).id = r.id) :
+    (tasks.map (fun r => if r.id = t then f r else r)).find? (·.id = t)
+      = (tasks.find? (·.id = t)).map f := by
+  induction tasks with
+  | nil => rfl
+  | cons a r ih => by_cases h : a.id = t <;> simp [h, hf, ih]
+
+theorem processOne_no_update (_s : Sys) (now : Time) (oid : Oid) (st : Sys.PcsSt) (t : Tid) (m : Mid)
+    (r : TaskRec) (hs : dictGet st.schedule t = some m) (hr : st.s.task? t = some r)
+    (hplanned : r.planned = some m) (hobj : r.allocObj = false) (herr : st.err = none) :
+    ((Sys.processOne now oid st t).s.task? t).map (fun r' => (r'.planned, r'.allocObj, r'.duration))
+      = some (some m, false, r.duration) ∨ (Sys.processOne now oid st t).err.isSome := by
+  unfold Sys.processOne
+  split
+  · rename_i e he; rw [herr] at he; cases he
+  · split
+    · rename_i m' r' hm' hr'
+      rw [hs] at hm'; rw [hr] at hr'
+      injection hm' with hm'; injection hr' with hr'
+      subst hm' hr'
+      split
+      · right; rfl
+      · rename_i mm hmm
+        extract_lets needUpd s1 pairs1 missing cross
+        have hnu : needUpd = false := by simp [needUpd, hobj, hplanned]
+        have hs1 : s1 = st.s := by simp [s1, hnu]
+        clear_value s1 pairs1 missing cross
+        subst hs1
+        simp only [hnu, Bool.false_eq_true, false_and, if_false]
+        split
+        · left; simp [hr, hplanned, hobj]
+        · split
+          · right; rfl
+          · split
+            · right; rfl
+            · left
+              have key := find_map_upd st.s.tasks t
+                (fun r => { r with status := TStatus.scheduled }) (fun _ => rfl)
+              have hr' : st.s.tasks.find? (·.id = t) = some r := hr
+              rw [hr'] at key
+              simp only [Sys.spawn, Sys.updTask, Sys.task?]
+              rw [key]
+              simp [hplanned, hobj]
+    · rename_i hno
+      exact absurd hr (hno m r hs)
+
 end Topsim
